@@ -61,7 +61,10 @@ impl Check for C03 {
             c.key_style = KeyStyle::Rich;
             c.allow_uncompressed = true;
             if heavy {
-                c.or_boost = 4;
+                c.or_boost = *[1u32, 4, 4][size % 3..].first().unwrap();
+                c.thresh_boost = *[6u32, 1, 3][size % 3..].first().unwrap();
+                c.top_props = crate::mirror::spec::S | crate::mirror::spec::M;
+                c.top_tries = 6;
                 c.leaf_w = [5, 5, 2];
                 c.key_style = KeyStyle::Hex;
             }
@@ -81,6 +84,18 @@ impl Check for C03 {
             return Ok(());
         }
         let mut world = if heavy && src.chance(2, 3) { gen::gen_full_world(src, &d) } else { gen::gen_world(src, &d) };
+        let mut drop_internal: Option<[u8; 32]> = None;
+        if heavy && src.chance(3, 4) {
+            // mostly without the internal key: otherwise the key path (cheapest) hides the tree
+            if let crate::mdesc::MDesc::Tr(ik, Some(_)) = &d {
+                if let Ok(kb) = crate::mirror::encode::key_bytes(ik, crate::mirror::spec::Ctx::Tap) {
+                    drop_internal = keys::xonly_of(&kb);
+                }
+            }
+        }
+        if let Some(x) = drop_internal {
+            world.keys.remove(&x);
+        }
         // hold most keys, so that the satisfier usually succeeds
         if src.chance(2, 3) {
             for k in d.all_keys() {
@@ -92,6 +107,9 @@ impl Check for C03 {
                     }
                 }
             }
+        }
+        if let Some(x) = drop_internal {
+            world.keys.remove(&x);
         }
         let entry = src.below(2);
         rep.desc = format!("{} | {} | entry={}", text, world.describe(), entry);
